@@ -5,6 +5,7 @@ import (
 	"crypto/sha512"
 	"encoding/json"
 	"fmt"
+	"github.com/fxamacker/cbor/v2"
 	"sort"
 	"sync"
 	"testing"
@@ -140,6 +141,25 @@ func runConstructed(spec *gen.MsgSpec, reversed bool) (*conRun, error) {
 				return nil, err
 			}
 		}
+	}
+	if len(sp.Payload)%3 == 1 {
+		// raw header fields that are empty but not nil (what a deep copy made with append(RawMessage{}, src...)
+		// or Raw = Raw[:0] leaves behind) are "not set", exactly like nil ones
+		hs := []*cose.Headers{m.headers()}
+		if m.sm != nil {
+			for _, sg := range m.sm.Signatures {
+				hs = append(hs, &sg.Headers)
+			}
+		}
+		for _, h := range hs {
+			if h.RawProtected == nil {
+				h.RawProtected = cbor.RawMessage{}
+			}
+			if h.RawUnprotected == nil {
+				h.RawUnprotected = cbor.RawMessage{}
+			}
+		}
+		stats.Class("empty-non-nil-raw-fields")
 	}
 	if sp.Detached {
 		*m.payload() = nil
